@@ -446,4 +446,4 @@ def run(ctx):
         "in the code, which can only delay the waiter's exit)",
         "nested task sets share the pipes; the model keeps one bag of queued pieces per task set (frame theorem enki_nested)"]
     if ctx.thorough():
-        ctx.coq_thorough_chk(["C01.Properties"])
+        ctx.coq_thorough_chk(["C01.Properties", "C01.PropertiesSrc"])
